@@ -74,6 +74,20 @@ Proof.
   rewrite firstn_app, Nat.sub_diag, firstn_all, firstn_O. now rewrite app_nil_r.
 Qed.
 
+(* re-stamping a packed tag gives exactly the tag packed with the new timestamp,
+   whatever the old and the new timestamp are (both sides of 2^24 included) *)
+Theorem mod_tag_timestamp_pack t ts ts' p : tag_wf t ts p -> ts' < 4294967296 ->
+  mod_tag_timestamp {| tg_header := {| th_type := t; th_size := lenN p; th_ts := ts |}; tg_raw := pack_tag t ts p |} ts'
+  = {| tg_header := {| th_type := t; th_size := lenN p; th_ts := ts' |}; tg_raw := pack_tag t ts' p |}.
+Proof.
+  intros Hwf Hts'. pose proof Hwf as (Ht & Hts & Hp).
+  assert (Hwf' : tag_wf t ts' p) by (repeat split; assumption).
+  unfold mod_tag_timestamp. cbn [tg_raw tg_header th_type th_size].
+  rewrite (pack_tag_layout _ _ _ Hwf), (pack_tag_layout _ _ _ Hwf').
+  unfold u32. rewrite (N.mod_small ts') by lia. rewrite be_put_3.
+  cbn [firstn skipn app]. reflexivity.
+Qed.
+
 (* reading a sequence of tags written by lal returns them all, in order *)
 Definition mk_read_tag (x : spec_tag) : tag :=
   match x with (t, ts, p) =>
